@@ -3,10 +3,10 @@ CONSTANTS
   MaxOps = 6
   Orgs = {"o1","o2"}
   SeedNames = {"A","B","C"}
-  Unflushed = {"CreateOrg","UpdateOrg","CreateTeam","RevokeToken","DeleteToken"}
+  Unflushed = {"CreateOrg","UpdateOrg","CreateTeam","DeleteToken"}
   AuthUnflushed = {}
   ExpirePos = {0, 1, 2}
-  ExpireBefore = {"DeleteOrg","UpdateTeam","DeleteTeam","CreateRole","UpdateRole","DeleteRole","CreateMP","DeleteMP"}
+  ExpireBefore = {"ReseedOrg","DeleteOrg","UpdateTeam","DeleteTeam","CreateRole","UpdateRole","DeleteRole","CreateMP","DeleteMP"}
   TeamScan = FALSE
   Emit = TRUE
 INVARIANTS Integrity EmitInv
